@@ -130,3 +130,43 @@ func fillUnknown(name string) []byte {
 	b := []byte{8, 0x75, 0x30}
 	return append(b, vrt.Bytes(name, 4)...)
 }
+
+// bytesCore: arbitrary input bytes (C05, C03(b), C09, C11 on the decode side).
+func bytesCore(ops *typeOps) {
+	N := vrt.Param("N")
+	vrt.SetOwner("buf")
+	b := vrt.Bytes("in", N)
+	vrt.SetOwner("user")
+	pw := ops.New()
+	dst := ops.ToRef(pw)
+	vrt.Freeze("buf", true)
+	vrt.SetOwner("dec")
+	vrt.Phase("decode")
+	vrt.ResetAllocBytes()
+	s0 := vrt.Steps()
+	n, err := DecodeObject(b, pw)
+	steps := vrt.Steps() - s0
+	alloc := vrt.AllocBytes()
+	vrt.Phase("")
+	var d refDec
+	rn, want, rok := refDecodeStruct(ops.St, b, dst, &d, 1<<20)
+	vrt.Check((err == nil) == rok, "C05 DecodeObject succeeds exactly when the input begins with a well-formed message")
+	if rok && err == nil {
+		vrt.Check(n == rn, "C03 returns the number of bytes up to and including the top-level STOP")
+		if !d.ValueOpen {
+			vrt.Check(refEqualStruct(ops.St, want, ops.ToRef(pw)), "C03 decoded value equals the reference decoder's")
+		}
+		vrt.Reach("ok")
+	} else if !rok && err != nil {
+		if d.Missing != "" {
+			vrt.Check(vrt.ErrClass(err) == 101, "C09 missing required field is an INVALID_DATA protocol error")
+			vrt.Check(vrt.ErrMsgContains(err, d.Missing), "C09 error names the missing required field")
+		}
+		vrt.Reach("err")
+	}
+	vrt.Check(steps <= 6000+1500*uint64(N), "C05 decode work is proportional to the input length")
+	vrt.Check(alloc <= 4096+256*uint64(N), "C05 memory requested is proportional to the input length")
+	vrt.Check(vrt.BytesEq(b, b), "C16 input untouched (M-frozen monitors stores)")
+	vrt.Freeze("buf", false)
+	vrt.Reach("end")
+}
